@@ -199,7 +199,10 @@ pub fn pick_size(rng: &mut Rng, cfg: &RunCfg) -> usize {
         14..=17 => rng.range(0, 80),
         18 => rng.range(0, 4200),
         _ => {
-            if cfg.big_sizes {
+            if cfg.big_sizes && cfg!(miri) {
+                // the interpreter spends seconds per megabyte touched
+                *rng.pick(&[4096usize, 4097, 65535, 65536, 65537, 70000])
+            } else if cfg.big_sizes {
                 // past the thresholds a size-dependent policy could hang on (page, 64 KiB = the largest
                 // remembered original capacity, 1 MiB), still far below the 8 MiB cap
                 *rng.pick(&[4096usize, 4097, 65535, 65536, 65537, 70000, 131072, 140000, 1 << 20, (1 << 20) + 1, 1_200_000, 2 << 20, 2_500_000])
